@@ -1,6 +1,6 @@
 (* C15/Examples.v — non-vacuity of the theorems' hypotheses and worked examples. *)
 From Coq Require Import ZArith.
-From XV Require Import lib.Bytes lib.Base64 lib.Lts gen.Ibb C15.Model C15.Proofs C15.ProofsMore.
+From XV Require Import lib.Bytes lib.Base64 lib.Lts gen.Ibb C15.Model C15.Proofs C15.ProofsRecv C15.ProofsMore.
 
 (* ---- sender ---- *)
 
@@ -31,10 +31,10 @@ Proof. vm_compute. reflexivity. Qed.
 
 (* ---- receiver: an open stream, as the hypotheses of the pipe theorems need it ---- *)
 
-Definition ex_h : handler := fst (h_step [] (EOpenLocal (str "s1") 8 true)).
+Definition ex_h : handler := fst (h_step h_empty (EOpenLocal (str "s1") 8 true)).
 Definition ex_c : rconn := new_conn (str "s1") 8.
 
-Example ex_lookup : lookup ex_h (str "s1") = Some ex_c /\ rc_rclosed ex_c = false /\ rc_seq ex_c = 0%N.
+Example ex_lookup : lookup ex_h (str "s1") = Some (0, ex_c) /\ rc_rclosed ex_c = false /\ rc_seq ex_c = 0%N.
 Proof. vm_compute. repeat split; reflexivity. Qed.
 
 (* the default limit (262144) has room for this sender's packets *)
@@ -54,35 +54,33 @@ Definition ex_ops : list wop := [WWrite (str "hello, "); WFlush; WWrite (str "wo
 Definition ex_events : list event :=
   [EOpenLocal (str "s1") 8 true;
    EData true (str "s1") 0 (str "aGVsbG8s");
-   ERead (str "s1") 3;
+   ERead 0 3;
    EData true (str "s1") 1 (str "IHdv!!!!");
    EData true (str "s1") 5 (str "cmxk");
    EData false (str "zz") 0 (str "QUJD");
    EData true (str "s1") 1 (str "IHdv");
-   EData true (str "s1") 2 (str "cmxk");
-   ERead (str "s1") 100;
+   EData false (str "s1") 2 (str "cmxk");
+   ERead 0 100;
    ECloseRemote (str "s1");
    EData true (str "s1") 3 (str "QUJD");
-   ERead (str "s1") 100].
+   ERead 0 100].
 
 Example ex_interleaving_obs :
-  snd (h_run [] ex_events) =
+  snd (h_run h_empty ex_events) =
     [OOpen true; OReply RAck; ORead (str "hel") false; OReply (RErr BadRequest);
-     OReply (RErr UnexpectedRequest); OReply (RErr ItemNotFound); OReply RAck; OReply RAck;
+     OReply (RErr UnexpectedRequest); OReply (RErr ItemNotFound); OReply RAck; OReply RSilent;
      ORead (str "lo, world") false; OReply RAck; OReply (RErr ItemNotFound); ORead [] true].
 Proof. vm_compute. reflexivity. Qed.
 
-Example ex_interleaving_hyp :
-  accepted_packets (str "s1") ex_events (snd (h_run [] ex_events)) = sender 8 0 ex_ops.
+Example ex_interleaving_hyp : accepted_to 0 h_empty ex_events = sender 8 0 ex_ops.
 Proof. vm_compute. reflexivity. Qed.
 
-Example ex_interleaving_reads :
-  reads_of (str "s1") ex_events (snd (h_run [] ex_events)) = written ex_ops.
+Example ex_interleaving_reads : reads_of 0 ex_events (snd (h_run h_empty ex_events)) = written ex_ops.
 Proof. vm_compute. reflexivity. Qed.
 
 (* the four refusals of C15_bad_packets_refused, each reachable *)
 Example ex_refusals :
-  let h := fst (h_run [] [EOpenLocal (str "s1") 4 true; ESetMax (str "s1") 4]) in
+  let h := fst (h_run h_empty [EOpenLocal (str "s1") 4 true; ESetMax 0 4]) in
   snd (handle_payload h true (str "nosuch") 0 (str "QUJD")) = RErr ItemNotFound /\
   snd (handle_payload h true (str "s1") 1 (str "QUJD")) = RErr UnexpectedRequest /\
   snd (handle_payload h true (str "s1") 0 (str "QUJDREVG")) = RErr ResourceConstraint /\
@@ -94,38 +92,90 @@ Proof. vm_compute. repeat split; reflexivity. Qed.
 (* TestBufferFull: refused with resource-constraint, accepted under the same
    number once the application has read *)
 Example ex_buffer_full :
-  snd (h_run [] [EOpenRemote (str "a") 4 true; ESetMax (str "a") 6;
+  snd (h_run h_empty [EOpenRemote (str "a") 4 true; ESetMax 0 6;
                  EData true (str "a") 0 (str "QUJDRA=="); EData true (str "a") 1 (str "QUJDRA==");
-                 ERead (str "a") 4; EData true (str "a") 1 (str "QUJDRA=="); ERead (str "a") 64]) =
+                 ERead 0 4; EData true (str "a") 1 (str "QUJDRA=="); ERead 0 64]) =
     [OReply RAck; ONone; OReply RAck; OReply (RErr ResourceConstraint);
      ORead (str "ABCD") false; OReply RAck; ORead (str "ABCD") false].
 Proof. vm_compute. reflexivity. Qed.
 
 (* a refused open leaves the stream unknown *)
 Example ex_open_refused :
-  snd (h_run [] [EOpenLocal (str "a") 8 false; EData true (str "a") 0 (str "QUJD")]) =
+  snd (h_run h_empty [EOpenLocal (str "a") 8 false; EData true (str "a") 0 (str "QUJD")]) =
     [OOpen false; OReply (RErr ItemNotFound)].
 Proof. vm_compute. reflexivity. Qed.
+
+(* ---- one session identifier, several streams ---- *)
+
+(* open(x), transfer, close, open(x) again, redundant Close on the old
+   connection at several points, transfer on the new one; the peer reopens the
+   identifier a third time (handle 2) and the second connection is closed
+   afterwards: the third stream stays registered *)
+Definition ex_reuse : list event :=
+  [EOpenLocal (str "x") 8 true;
+   EData true (str "x") 0 (str "QUJD");
+   ECloseLocal 0;
+   EData true (str "x") 1 (str "QUJD");
+   EOpenLocal (str "x") 8 true;
+   ECloseLocal 0;
+   EData true (str "x") 0 (str "REVG");
+   ECloseLocal 0;
+   EData false (str "x") 1 (str "R0hJ");
+   ERead 1 64; ERead 0 64; ERead 0 64;
+   EOpenRemote (str "x") 4 true;
+   ECloseLocal 1;
+   EData true (str "x") 0 (str "SktM");
+   ERead 2 64; ERead 1 64].
+
+Example ex_reuse_obs :
+  snd (h_run h_empty ex_reuse) =
+    [OOpen true; OReply RAck; ONone; OReply (RErr ItemNotFound); OOpen true; ONone; OReply RAck; ONone;
+     OReply RSilent; ORead (str "DEFGHI") false; ORead (str "ABC") false; ORead [] true;
+     OReply RAck; ONone; OReply RAck; ORead (str "JKL") false; ORead [] true].
+Proof. vm_compute. reflexivity. Qed.
+
+Example ex_reuse_accepted :
+  accepted_to 0 h_empty ex_reuse = [mkpkt 0 (str "QUJD")] /\
+  accepted_to 1 h_empty ex_reuse = [mkpkt 0 (str "REVG"); mkpkt 1 (str "R0hJ")] /\
+  accepted_to 2 h_empty ex_reuse = [mkpkt 0 (str "SktM")].
+Proof. vm_compute. repeat split; reflexivity. Qed.
+
+(* the hypotheses of C15_old_close_keeps_new_stream and C15_redundant_close_is_noop *)
+Example ex_reuse_hyp :
+  let h := fst (h_run h_empty (firstn 5 ex_reuse)) in
+  (exists c, lookup h (str "x") = Some (1, c)) /\
+  (exists c0, get h 0 = Some c0 /\ rc_rclosed c0 = true /\ rc_sid c0 = str "x").
+Proof. split; eexists; [vm_compute; reflexivity|]. split; [vm_compute; reflexivity|split; reflexivity]. Qed.
+
+(* with the unguarded rmStream the second connection's Close would have
+   removed the third stream: the witness of C15_unguarded_rmstream_refuted in
+   terms of this history *)
+Example ex_reuse_unguarded :
+  let h := fst (h_run h_empty (firstn 13 ex_reuse)) in
+  tbl_find (h_tbl h) (str "x") = Some 2 /\
+  tbl_find (tbl_rm (h_tbl h) (str "x") 1) (str "x") = Some 2 /\
+  tbl_find (tbl_rm_unguarded (h_tbl h) (str "x") 1) (str "x") = None.
+Proof. vm_compute. repeat split; reflexivity. Qed.
 
 (* ---- schedules ---- *)
 
 (* the schedule that lost the wake-up on the pinned tree: the packet is handled
    between the reader's empty test and its wait *)
 Example ex_sched_notify_before_wait :
-  sched_run l_init [LStart 4; LDeliver (str "ab"); LWait; LResume] =
+  sched_run l_init [LStart 4; LDeliver true (str "ab"); LWait; LResume] =
     [SDid BParked; SDid BAck; SDid BWoke; SDid (BReturned (str "ab") false)].
 Proof. vm_compute. reflexivity. Qed.
 
 (* woken by an empty packet: the reader goes back to waiting instead of
    returning end-of-file *)
 Example ex_sched_empty_packet :
-  sched_run l_init [LStart 4; LWait; LDeliver []; LResume; LWait; LClose; LResume] =
+  sched_run l_init [LStart 4; LWait; LDeliver true []; LResume; LWait; LClose; LResume] =
     [SDid BParked; SDid BInRecv; SDid BAck; SDid BParked; SDid BInRecv; SDid BClosed; SDid (BReturned [] true)].
 Proof. vm_compute. reflexivity. Qed.
 
 (* reachable states for the hypotheses of the schedule theorems *)
 Example ex_reachable_checked_with_data :
-  exists s, lrun l_init [LStart 4; LDeliver (str "ab")] = Some s /\ l_pc s = PChecked 4 /\ l_buf s <> [].
+  exists s, lrun l_init [LStart 4; LDeliver false (str "ab")] = Some s /\ l_pc s = PChecked 4 /\ l_buf s <> [].
 Proof. eexists. split; [vm_compute; reflexivity|]. split; [reflexivity|discriminate]. Qed.
 
 Example ex_reachable_blocked :
@@ -133,7 +183,7 @@ Example ex_reachable_blocked :
 Proof. eexists. split; [vm_compute; reflexivity|reflexivity]. Qed.
 
 Example ex_reachable_closed_with_data :
-  exists s, lrun l_init [LDeliver (str "abc"); LStart 1; LClose] = Some s /\ l_closed s = true /\ l_buf s = str "bc".
+  exists s, lrun l_init [LDeliver false (str "abc"); LStart 1; LClose] = Some s /\ l_closed s = true /\ l_buf s = str "bc".
 Proof. eexists. split; [vm_compute; reflexivity|]. split; reflexivity. Qed.
 
 Example ex_eof :
@@ -142,7 +192,7 @@ Proof. eexists. split; [vm_compute; reflexivity|reflexivity]. Qed.
 
 (* the same two schedules on the pinned design *)
 Example ex_pinned_lost :
-  match lrun_pinned l_init [LStart 4; LDeliver (str "ab"); LWait] with
+  match lrun_pinned l_init [LStart 4; LDeliver true (str "ab"); LWait] with
   | Some s => reader_blocked s = true /\ l_buf s = str "ab"
   | None => False
   end.
@@ -153,20 +203,28 @@ Proof. vm_compute. split; reflexivity. Qed.
 Definition ex_refused_then_close : list event :=
   [EOpenLocal (str "a") 8 true;
    EData true (str "a") 0 (str "QUJD");
-   EWrite (str "a") true;
-   EWrite (str "a") false;
-   EWrite (str "a") true;
+   EWrite 0 true;
+   EWrite 0 false;
+   EWrite 0 true;
    ECloseRemote (str "a");
-   EWrite (str "a") true;
-   ERead (str "a") 64; ERead (str "a") 64].
+   EWrite 0 true;
+   ERead 0 64; ERead 0 64].
 
 Example ex_refused_then_close_obs :
-  snd (h_run [] ex_refused_then_close) =
+  snd (h_run h_empty ex_refused_then_close) =
     [OOpen true; OReply RAck; OWrite true; OWrite false; OWrite false; OReply RAck; OWrite false;
      ORead (str "ABC") false; ORead [] true].
 Proof. vm_compute. reflexivity. Qed.
 
 (* the hypothesis of C15_peer_close_always_answered with the error pending *)
 Example ex_close_hyp_with_stale_error :
-  exists c, lookup (fst (h_run [] (firstn 5 ex_refused_then_close))) (str "a") = Some c /\ rc_werr c = true.
+  exists c, lookup (fst (h_run h_empty (firstn 5 ex_refused_then_close))) (str "a") = Some (0, c) /\ rc_werr c = true.
 Proof. eexists. split; [vm_compute; reflexivity|reflexivity]. Qed.
+
+(* ---- the message carrier wakes a parked reader like the iq carrier ---- *)
+
+Example ex_sched_message_carrier :
+  sched_run l_init [LStart 4; LWait; LDeliver false (str "ab"); LResume; LStart 4; LDeliver false (str "c"); LWait; LResume] =
+    [SDid BParked; SDid BInRecv; SDid BTaken; SDid (BReturned (str "ab") false);
+     SDid BParked; SDid BTaken; SDid BWoke; SDid (BReturned (str "c") false)].
+Proof. vm_compute. reflexivity. Qed.
